@@ -87,8 +87,26 @@ def replay_mesh(model, cls="SinglePhaseReservoir", nx=5):
             alpha = interp1d(np.asarray(base.alpha.x, float), np.asarray(base.alpha.y, float)[::-1].copy(), bounds_error=False,
                              fill_value=(float(np.min(base.alpha.y)), float(np.max(base.alpha.y))))
         fluids.append(Falling())
+
+        # ... and the same fluid with its scaled pseudopressure in units where the initial state is 3 rather than below 1
+        # (FlowPropertiesSimple on a psi table, or an own-alpha table whose p_i lies between rows, have m_i above 1)
+        kk = 3.0 / float(base.m_i)
+
+        class Above1:
+            m_i = 3.0
+            pvt_props = base.pvt_props
+
+            @staticmethod
+            def m_scaled_func(p):
+                return kk * np.asarray(base.m_scaled_func(p), float)
+
+            @staticmethod
+            def alpha(m):
+                return base.alpha(np.asarray(m, float) / kk)
+        fluids.append(Above1())
     labels = ["shipped gas table", "shipped gas table, diffusivity in units 1e-17 times smaller", "shipped gas table with a constant user diffusivity column",
-              "shipped gas table with its diffusivity values in reverse order (falling with pressure)"]
+              "shipped gas table with its diffusivity values in reverse order (falling with pressure)",
+              "shipped gas table with the scaled pseudopressure in units where m_i = 3"]
     problems = []
     for fi, fluid in enumerate(fluids):
         res, calls = real_capture(cls, nx, t, fluid, None if fluid is None else np.full(3, 1000.0))
